@@ -35,7 +35,27 @@ macro_rules! ans_impl {
                         return;
                     }
                 },
-                _ => AnsCoder::from_binary(init_words).unwrap(),
+                2 => AnsCoder::from_binary(init_words).unwrap(),
+                11 | 12 => {
+                    // the iterator-backed constructors (words handed over last word first), then
+                    // moved onto a Vec through raw parts
+                    let it = init_words.iter().rev().map(|&w| Ok::<$W, core::convert::Infallible>(w));
+                    let (backend, state) = if init_kind == 11 {
+                        match AnsCoder::<$W, $S, _>::from_reversed_compressed_iter(it) {
+                            Ok(c) => c.into_raw_parts(),
+                            Err(_) => {
+                                out.push(ERR_IMPORT);
+                                return;
+                            }
+                        }
+                    } else {
+                        AnsCoder::<$W, $S, _>::from_reversed_binary_iter(it).unwrap().into_raw_parts()
+                    };
+                    let mut rest: Vec<$W> = backend.into_iter().map(|x| x.unwrap()).collect();
+                    rest.reverse();
+                    AnsCoder::from_raw_parts(rest, state)
+                }
+                other => panic!("harness: unknown ans init kind {}", other),
             };
             // op 16 forks a twin that receives every later encode/decode/reload but none of the
             // inspections (C08): its results are printed right after the main coder's
